@@ -605,3 +605,6 @@ Example wal_example :
                 /\ nth_error tr 7 = Some (Recover [], RRecovered c2)
                 /\ map (fun c => (e_item (fst c), snd c)) c2 = [(1, OOk)].
 Proof. vm_compute. repeat split; try reflexivity. eexists. eexists. repeat split. Qed.
+
+Lemma key_roundtrip_range : forall id, 1 <= id -> id < two64N -> parse_event_id (event_key id) = Some id.
+Proof. intros id H1 H2. apply key_roundtrip. split; assumption. Qed.
